@@ -606,23 +606,48 @@ func c01run(c *Ctx) {
 	}
 
 	// ---- unsupported operations and bind versions
+	supported := []int{codec.AppBindRequest, codec.AppUnbindRequest, codec.AppSearchRequest, codec.AppModifyRequest, codec.AppAddRequest, codec.AppDelRequest, codec.AppExtendedRequest}
+	type ct struct{ class, tag int }
+	var unsup []ct
 	for tag := 0; tag <= 30; tag++ {
-		switch tag {
-		case codec.AppBindRequest, codec.AppUnbindRequest, codec.AppSearchRequest, codec.AppModifyRequest, codec.AppAddRequest, codec.AppDelRequest, codec.AppExtendedRequest:
-			continue
+		isSup := false
+		for _, st := range supported {
+			isSup = isSup || st == tag
 		}
+		if !isSup {
+			unsup = append(unsup, ct{codec.Application, tag})
+		}
+	}
+	// tag numbers in BER's high-tag-number form, among them every number that is congruent to a supported
+	// one modulo a power of two a narrowing conversion could introduce; and the supported numbers in the
+	// three other tag classes
+	for _, t := range []int{31, 33, 127, 129, 255, 257, 16383, 16384, 1<<31 - 1} {
+		unsup = append(unsup, ct{codec.Application, t})
+	}
+	for _, mod := range []int{32, 64, 128, 256, 65536, 1 << 32} {
+		for _, st := range supported {
+			unsup = append(unsup, ct{codec.Application, st + mod})
+		}
+	}
+	for _, class := range []int{codec.Universal, codec.Context, codec.Private} {
+		for _, st := range supported {
+			unsup = append(unsup, ct{class, st})
+		}
+	}
+	for _, u := range unsup {
+		tag := u.tag
 		bodies := []*codec.Node{
-			codec.Prim(codec.Application, tag, nil),
-			codec.Prim(codec.Application, tag, []byte("cn=a")),
-			codec.Prim(codec.Application, tag, codec.EncInt(3)),
-			codec.Cons(codec.Application, tag),
-			codec.Cons(codec.Application, tag, codec.Octet("cn=a")),
-			codec.Cons(codec.Application, tag, codec.Int(3), codec.Octet("cn=a"), codec.CtxPrim(0, "p")),                                    // bind-shaped
-			codec.Cons(codec.Application, tag, codec.Octet("cn=a"), codec.Seq(codec.Octet("cn"), codec.Octet("v"))),                         // compare-shaped
-			codec.Cons(codec.Application, tag, codec.Octet("cn=a"), codec.Octet("cn=b"), codec.Bool(true)),                                  // modifyDN-shaped
-			codec.Cons(codec.Application, tag, codec.Octet("cn=a"), codec.Seq(codec.Seq(codec.Octet("mail"), codec.Set(codec.Octet("v"))))), // add-shaped
-			codec.Cons(codec.Application, tag, codec.CtxPrim(0, codec.OIDWhoAmI)),                                                           // extended-shaped
-			codec.Cons(codec.Application, tag, codec.Octet("dc=a"), codec.Enum(2), codec.Enum(0), codec.Int(0), codec.Int(0), codec.Bool(false), codec.CtxPrim(7, "cn"), codec.Seq()), // search-shaped
+			codec.Prim(u.class, tag, nil),
+			codec.Prim(u.class, tag, []byte("cn=a")),
+			codec.Prim(u.class, tag, codec.EncInt(3)),
+			codec.Cons(u.class, tag),
+			codec.Cons(u.class, tag, codec.Octet("cn=a")),
+			codec.Cons(u.class, tag, codec.Int(3), codec.Octet("cn=a"), codec.CtxPrim(0, "p")),                                    // bind-shaped
+			codec.Cons(u.class, tag, codec.Octet("cn=a"), codec.Seq(codec.Octet("cn"), codec.Octet("v"))),                         // compare-shaped
+			codec.Cons(u.class, tag, codec.Octet("cn=a"), codec.Octet("cn=b"), codec.Bool(true)),                                  // modifyDN-shaped
+			codec.Cons(u.class, tag, codec.Octet("cn=a"), codec.Seq(codec.Seq(codec.Octet("mail"), codec.Set(codec.Octet("v"))))), // add-shaped
+			codec.Cons(u.class, tag, codec.CtxPrim(0, codec.OIDWhoAmI)),                                                           // extended-shaped
+			codec.Cons(u.class, tag, codec.Octet("dc=a"), codec.Enum(2), codec.Enum(0), codec.Int(0), codec.Int(0), codec.Bool(false), codec.CtxPrim(7, "cn"), codec.Seq()), // search-shaped
 		}
 		for bi, body := range bodies {
 			for _, id := range []int64{1, 128} {
@@ -630,7 +655,7 @@ func c01run(c *Ctx) {
 					continue
 				}
 				b := codec.Seq(codec.Int(id), body).Bytes()
-				c01unsupported(c, b, fmt.Sprintf("application tag %d body#%d", tag, bi))
+				c01unsupported(c, b, fmt.Sprintf("class %d tag %d body#%d", u.class, tag, bi))
 			}
 		}
 	}
